@@ -16,11 +16,14 @@ package props
 
 import (
 	"bytes"
+	"encoding/hex"
+	"encoding/json"
 	"fmt"
 	"math/rand"
 	"reflect"
 	"sort"
 	"strings"
+	"time"
 
 	"go.sia.tech/core/consensus"
 	"go.sia.tech/core/types"
@@ -332,6 +335,9 @@ type c12Ctx struct {
 	ops  []string
 	outs []string
 	seen map[string]bool
+	// every cmpEvery-th mutation is also classified by the model
+	cmpEvery, cmpN int
+	collisionReplay map[string]any
 }
 
 func (x *c12Ctx) op(line, want string) {
@@ -354,6 +360,18 @@ func (x *c12Ctx) compareV1(cs consensus.State, t types.Transaction) {
 	}
 }
 
+func c12SameKinds(a, b types.V2Transaction) bool {
+	if len(a.FileContractResolutions) != len(b.FileContractResolutions) {
+		return false
+	}
+	for i := range a.FileContractResolutions {
+		if reflect.TypeOf(a.FileContractResolutions[i].Resolution) != reflect.TypeOf(b.FileContractResolutions[i].Resolution) {
+			return false
+		}
+	}
+	return true
+}
+
 // sweepV2 mutates every leaf of t once; origin is recorded in the replay.
 func (x *c12Ctx) sweepV2(cs consensus.State, t types.V2Transaction, origin string, maxLeaves int) {
 	res := x.c.Res
@@ -373,6 +391,18 @@ func (x *c12Ctx) sweepV2(cs consensus.State, t types.V2Transaction, origin strin
 		}
 		want := c12EffectBearingV2(l.path)
 		idChanged, shChanged := m.ID() != id0, cs.InputSigHash(m) != sh0
+		if x.cmpEvery > 0 && x.cmpN%x.cmpEvery == 0 {
+			// the Lean specification `strip` must classify this mutation like the table above (two
+			// independent readings of the property text), and the model must predict the id's behaviour
+			b2 := func(b bool) string {
+				if b {
+					return "1"
+				}
+				return "0"
+			}
+			x.op("cmp-v2 "+c12Hex(chain.Encode(t))+" "+c12Hex(chain.Encode(m)), "strip="+b2(!want)+" code="+b2(!idChanged)+" kinds="+b2(c12SameKinds(t, m))+" sem="+b2(!idChanged))
+		}
+		x.cmpN++
 		name := l.path
 		if l.kind != "value" {
 			name += "#" + l.kind
@@ -668,6 +698,60 @@ func c12Collision(rng *rand.Rand) (a, b types.V2Transaction) {
 	return a, b
 }
 
+// c12ValidCollision: on a live chain, a contract X past its expiration height can be resolved by an
+// expiration (valid without any signature) or renewed by its parties; the pair below is BOTH-VALID on
+// the same parent state and has one transaction id: a renewal paid entirely by its rollover whose final
+// renter output is worth 648 * 2^64 H, and the expiration that carries the renewal's bytes as
+// arbitrary data.
+func c12ValidCollision(s *chain.Sim) (a, b types.V2Transaction, ok bool) {
+	if !s.V2Allowed() {
+		return
+	}
+	child := s.ChildHeight()
+	var ids []types.FileContractID
+	for id := range s.St.V2FC {
+		ids = append(ids, id)
+	}
+	sort.Slice(ids, func(i, j int) bool { return bytes.Compare(ids[i][:], ids[j][:]) < 0 })
+	for _, id := range ids {
+		e := s.St.V2FC[id]
+		fc := e.V2FileContract
+		want := types.NewCurrency(0, 648)
+		if child <= fc.ExpirationHeight || fc.RenterOutput.Value.Cmp(want) <= 0 {
+			continue
+		}
+		rr := fc.RenterOutput.Value.Sub(want)
+		v := rr // new contract value; its cost v + v/25 is paid by the two rollovers
+		cost := v.Add(v.Div64(25))
+		hr := cost.Sub(rr)
+		if hr.Cmp(fc.HostOutput.Value) > 0 || v.Cmp(types.NewCurrency64(2)) < 0 {
+			continue
+		}
+		nc := fc
+		nc.RenterOutput.Value, nc.HostOutput.Value = v.Div64(2), v.Sub(v.Div64(2))
+		nc.MissedHostValue, nc.TotalCollateral = types.ZeroCurrency, types.ZeroCurrency
+		nc.ProofHeight, nc.ExpirationHeight, nc.RevisionNumber = child+1, child+3, 0
+		s.SignContract(&nc, fc.RenterPublicKey, fc.HostPublicKey)
+		rn := &types.V2FileContractRenewal{FinalRenterOutput: fc.RenterOutput, FinalHostOutput: fc.HostOutput, RenterRollover: rr, HostRollover: hr, NewContract: nc}
+		rn.FinalRenterOutput.Value = want
+		rn.FinalHostOutput.Value = fc.HostOutput.Value.Sub(hr)
+		h := s.Tip.RenewalSigHash(*rn)
+		rn.RenterSignature, rn.HostSignature = s.KeyFor(fc.RenterPublicKey).SignHash(h), s.KeyFor(fc.HostPublicKey).SignHash(h)
+		b = types.V2Transaction{FileContractResolutions: []types.V2FileContractResolution{{Parent: e.Copy(), Resolution: rn}}}
+		sb := chain.Encode(types.V2TransactionSemantics(b))
+		off, tail := 8*6+8+32, 1+16
+		if len(sb)-off-16-tail != 648 {
+			continue
+		}
+		a = types.V2Transaction{
+			FileContractResolutions: []types.V2FileContractResolution{{Parent: e.Copy(), Resolution: &types.V2FileContractExpiration{}}},
+			ArbitraryData:           append([]byte(nil), sb[off+16:len(sb)-tail]...),
+		}
+		return a, b, true
+	}
+	return
+}
+
 func (x *c12Ctx) collision() {
 	res := x.c.Res
 	a, b := c12Collision(x.rng)
@@ -677,18 +761,52 @@ func (x *c12Ctx) collision() {
 	res.Eval("collision", true)
 	if a.ID() == b.ID() && a.FullHash() != b.FullHash() {
 		res.Count("collision:reproduced")
-		res.Violate(fw.Violation{
-			Key:  "c12-v2-id-collision:resolution-kind",
-			What: "two different v2 transactions (an expiration carrying arbitrary data / a renewal) have the same transaction id and the same input sighash: V2TransactionSemantics writes resolutions without their type tag",
-			Replay: map[string]any{"expiration_txn": fw.Hex(chain.Encode(a)), "renewal_txn": fw.Hex(chain.Encode(b)),
-				"id_expiration": c12H(a.ID()), "id_renewal": c12H(b.ID()),
-				"input_sighash_expiration": c12H(cs.InputSigHash(a)), "input_sighash_renewal": c12H(cs.InputSigHash(b))},
-			Expected: "different ids and different input sighashes (the resolution kind and the arbitrary data are effect-bearing)",
-			Observed: "equal ids, equal input sighashes: " + fmt.Sprint(cs.InputSigHash(a) == cs.InputSigHash(b)),
-		})
+		x.collisionReplay = map[string]any{"expiration_txn": fw.Hex(chain.Encode(a)), "renewal_txn": fw.Hex(chain.Encode(b)),
+			"id_expiration": c12H(a.ID()), "id_renewal": c12H(b.ID()),
+			"input_sighash_expiration": c12H(cs.InputSigHash(a)), "input_sighash_renewal": c12H(cs.InputSigHash(b))}
 	} else {
 		res.Count("collision:not-reproduced")
 	}
+}
+
+// collisionOnChain looks for the both-valid pair on the current tip.
+func (x *c12Ctx) collisionOnChain(s *chain.Sim, ts time.Time, rp map[string]any) {
+	if x.collisionReplay == nil || x.collisionReplay["both_valid"] != nil {
+		return
+	}
+	a, b, ok := c12ValidCollision(s)
+	if !ok || a.ID() != b.ID() {
+		return
+	}
+	valid := func(t types.V2Transaction) bool {
+		blk := types.Block{Timestamp: ts, V2: &types.V2BlockData{Transactions: []types.V2Transaction{t}}}
+		s.Seal(&blk, types.Address{1})
+		return consensus.ValidateBlock(s.Tip, blk, consensus.V1BlockSupplement{}) == nil
+	}
+	va, vb := valid(a), valid(b)
+	x.c.Res.Count(fmt.Sprintf("collision-on-chain:expiration-valid=%v,renewal-valid=%v", va, vb))
+	if va && vb {
+		x.compareV2(s.Tip, a)
+		x.compareV2(s.Tip, b)
+		x.collisionReplay["both_valid"] = map[string]any{"chain": rp, "expiration_txn": fw.Hex(chain.Encode(a)), "renewal_txn": fw.Hex(chain.Encode(b)), "id": c12H(a.ID())}
+	}
+}
+
+func (x *c12Ctx) reportCollision() {
+	if x.collisionReplay == nil {
+		return
+	}
+	obs := "equal ids, equal input sighashes"
+	if x.collisionReplay["both_valid"] != nil {
+		obs += "; a pair that is BOTH-VALID on one parent state (each accepted by ValidateBlock in a block of its own) is included"
+	}
+	x.c.Res.Violate(fw.Violation{
+		Key:      "c12-v2-id-collision:resolution-kind",
+		What:     "two different v2 transactions (an expiration carrying arbitrary data / a renewal) have the same transaction id and the same input sighash: V2TransactionSemantics writes resolutions without their type tag",
+		Replay:   x.collisionReplay,
+		Expected: "different ids and different input sighashes (the resolution kind and the arbitrary data are effect-bearing)",
+		Observed: obs,
+	})
 }
 
 // ---------------------------------------------------------------- run
@@ -696,13 +814,13 @@ func (x *c12Ctx) collision() {
 func runC12(c *fw.Ctx) {
 	res := c.Res
 	res.Rule = "generated chains (modes v1 / mixed / v2 / legacy) and reflection-built random transactions: (a) transaction id, every derived id (outputs, contracts, attestations, claims, contract payouts, renewal, miner/foundation outputs, v1 valid/missed outputs), every sighash (v2 input/contract/renewal/attestation, v1 whole/partial with the era prefix taken from the statement), block id, v1 Merkle root and v2 commitment compared byte for byte with the Lean model running real BLAKE2b; (b) every leaf field (and every slice length / pointer presence) of every transaction shape mutated once: id and input sighash changed <=> the field is effect-bearing by the classification written from the property text (witnesses, contract and renewal signatures, parent contents other than ids, state-element Merkle proofs, v1 signatures are not); (c) all ids derived in a block pairwise distinct; (d) every content field of generated blocks mutated with ParentID/Nonce/Timestamp(/V2.Commitment) kept: different id or ValidateBlock rejects; v2 blocks rejected on a parent state changed in one committed field; (e) the known resolution-kind collision replayed. Non-trivial = every mutation that changes the encoding."
-	x := &c12Ctx{c: c, rng: rand.New(rand.NewSource(c.Seed*7919 + 12)), seen: map[string]bool{}}
+	x := &c12Ctx{c: c, rng: rand.New(rand.NewSource(c.Seed*7919 + 12)), seen: map[string]bool{}, cmpEvery: c.Budget(3, 4)}
 	if c.Replay != "" {
 		c12Replay(x)
 		return
 	}
 	x.collision()
-	nChains := c.Budget(10, 200)
+	nChains := c.Budget(10, 100)
 	blocks := c.Budget(36, 60)
 	sweepEvery := c.Budget(3, 1)
 	for i := 0; i < nChains; i++ {
@@ -764,6 +882,7 @@ func runC12(c *fw.Ctx) {
 			if k%2 == 0 {
 				x.blockMutations(s, p, rp, c.Budget(8, 40))
 			}
+			x.collisionOnChain(s, p.Block.Timestamp, rp)
 			if _, err := s.Apply(p.Block, p.Supp); err != nil {
 				res.Note("generator produced a rejected block (%s seed %d height %d): %v", mode, seed, height, err)
 				res.Count("generator-rejected")
@@ -774,6 +893,7 @@ func runC12(c *fw.Ctx) {
 			res.CountN("gen:"+k, v)
 		}
 	}
+	x.reportCollision()
 	// reflection-built random transactions
 	g := &c11Gen{rng: x.rng}
 	nRand := c.Budget(150, 3000)
@@ -826,7 +946,8 @@ func runC12(c *fw.Ctx) {
 	res.Sample(map[string]any{"distribution_keys": fw.SortedKeys(res.Distribution)})
 }
 
-// c12Replay re-runs one stored case: a field mutation (txn + field), or the collision.
+// c12Replay re-runs one stored case: a field mutation (txn + mutant + field), the collision, or —
+// for block-level cases — the seeded sweep.
 func c12Replay(x *c12Ctx) {
 	res := x.c.Res
 	res.Rule = "replay of one stored case"
@@ -837,7 +958,60 @@ func c12Replay(x *c12Ctx) {
 	}
 	if bytes.Contains(raw, []byte("c12-v2-id-collision")) {
 		x.collision()
+		x.reportCollision()
 		return
+	}
+	var st struct {
+		Key    string `json:"key"`
+		Replay struct {
+			Field  string `json:"field"`
+			Txn    string `json:"txn"`
+			Mutant string `json:"mutant"`
+		} `json:"replay"`
+	}
+	if json.Unmarshal(raw, &st) == nil && st.Replay.Txn != "" && st.Replay.Mutant != "" {
+		tb, e1 := hex.DecodeString(st.Replay.Txn)
+		mb, e2 := hex.DecodeString(st.Replay.Mutant)
+		path := strings.SplitN(st.Replay.Field, "#", 2)[0]
+		if e1 == nil && e2 == nil {
+			rp := map[string]any{"field": st.Replay.Field, "txn": st.Replay.Txn, "mutant": st.Replay.Mutant}
+			res.Eval("replay/"+st.Replay.Field, true)
+			if strings.Contains(st.Key, ":v1.") {
+				var t, m types.Transaction
+				d1, d2 := types.NewBufDecoder(tb), types.NewBufDecoder(mb)
+				t.DecodeFrom(d1)
+				m.DecodeFrom(d2)
+				if d1.Err() == nil && d2.Err() == nil {
+					want, changed := c12EffectBearingV1(path), t.ID() != m.ID()
+					if want != changed {
+						res.Violate(fw.Violation{Key: st.Key, What: "replayed: v1 id change does not match the classification of " + st.Replay.Field, Replay: rp})
+					}
+					return
+				}
+			} else {
+				var t, m types.V2Transaction
+				d1, d2 := types.NewBufDecoder(tb), types.NewBufDecoder(mb)
+				t.DecodeFrom(d1)
+				m.DecodeFrom(d2)
+				if d1.Err() == nil && d2.Err() == nil {
+					cs := consensus.State{}
+					want := c12EffectBearingV2(path)
+					changed := t.ID() != m.ID()
+					if strings.Contains(st.Key, "sighash") {
+						changed = cs.InputSigHash(t) != cs.InputSigHash(m)
+					}
+					if want != changed {
+						res.Violate(fw.Violation{Key: st.Key, What: "replayed: id / sighash change does not match the classification of " + st.Replay.Field, Replay: rp})
+					}
+					x.compareV2(cs, t)
+					x.compareV2(cs, m)
+					if len(x.ops) > 0 {
+						x.c.Compare(x.ops, x.outs)
+					}
+					return
+				}
+			}
+		}
 	}
 	res.Note("replay of this case kind re-runs the whole seeded sweep")
 	x.c.Replay = ""
